@@ -10,6 +10,11 @@ STD_CELLS = [
     ("nonuniform-analytic", "G2n", {"analytic_priors": True}),
     ("nonuniform-rejection", "G2n", {}),
     ("nonuniform-rejection-box-draws", "G2r", {}),
+    ("constrained-prior", "G2c", {}),
+    ("constrained-prior-leaky-uninformed", "G2c", {"uninformed_proposal": "leaky", "maximum_uninformed": 150}),
+    ("flat-direction-prime-prior", "G2f", {"reparameterisations": {"x0": {"reparameterisation": "rescaletobounds", "rescale_bounds": [0.0, 1.0], "prior": "uniform"},
+                                                                  "x1": {"reparameterisation": "rescaletobounds", "rescale_bounds": [0.0, 1.0], "prior": "uniform"}}}),
+    ("flat-direction-default", "G2f", {}),
     ("ties-nlive50", "Tie2", {"nlive": 50, "stopping": 0.5}),
     ("ties-analytic", "Tie2", {"nlive": 100, "stopping": 0.5, "analytic_priors": True}),
     ("gw-proposal", "GW5", {"flow_proposal_class": "GWFlowProposal", "max_iteration": 500}),
@@ -52,7 +57,7 @@ STD_CELLS = [
     ("tolerance-loose", "G2u", {"stopping": 0.5}),
 ]
 
-QUICK_STD = ["default-G2u", "default-G4u", "nonuniform-analytic", "nonuniform-rejection-box-draws", "ties-nlive50", "ties-analytic", "gw-proposal", "clustering", "augmented-marginalised", "augmented", "no-uninformed",
+QUICK_STD = ["default-G2u", "default-G4u", "nonuniform-analytic", "nonuniform-rejection-box-draws", "constrained-prior", "constrained-prior-leaky-uninformed", "flat-direction-prime-prior", "ties-nlive50", "ties-analytic", "gw-proposal", "clustering", "augmented-marginalised", "augmented", "no-uninformed",
              "latent-nball", "latent-gaussian", "latent-flow", "radius-worst-point", "radius-min-max", "truncate-log-q", "accumulate-weights", "drawsize-small",
              "reparam-logit", "reparam-inversion-split", "reparam-inversion-duplicate", "reparam-angle", "flow-maf", "flow-nsf", "nlive-10", "nlive-300",
              "memory", "reset-weights", "uninformed-50", "shrinkage-t", "pool-2", "capped-300", "prior-sampling", "tolerance-loose"]
@@ -161,6 +166,8 @@ INS_CELLS = [
     ("ins-weighted-kl", "G2u", {"weighted_kl": True}, None),
     ("ins-no-reset-flow", "G2u", {"reset_flow": False}, None),
     ("ins-pool", "G2u", {"n_pool": 2}, None),
+    ("ins-constrained-prior", "G2c", {}, None),
+    ("ins-constrained-prior-strict-resume", "G2c", {"strict_threshold": True, "save_log_q": True}, [2]),
     ("ins-gw5", "GW5", {"nlive": 400, "min_samples": 100, "max_iteration": 8}, None),
 ]
 
